@@ -124,15 +124,14 @@ Definition first_some {A} (a b : option A) : option A :=
 Fixpoint enum_from {A} (i : Z) (l : list A) : list (Z * A) :=
   match l with [] => [] | x :: t => (i, x) :: enum_from (i + 1) t end.
 
-(* sorted(set(names)) *)
+(* sorted(set(names)): duplicates removed, then insertion sort on code points *)
 Fixpoint ins_sorted (x : string) (l : list string) : list string :=
   match l with
   | [] => [x]
-  | y :: t => if String.eqb x y then y :: t
-              else if String.ltb x y then x :: y :: t
-              else y :: ins_sorted x t
+  | y :: t => if String.ltb y x then y :: ins_sorted x t else x :: y :: t
   end.
-Definition sorted_set (l : list string) : list string := fold_right ins_sorted [] l.
+Definition sorted_set (l : list string) : list string :=
+  fold_right ins_sorted [] (nodup string_dec l).
 
 (* -------------------------------------------- ResourceManager helpers *)
 
